@@ -48,6 +48,7 @@ class Report:
         self.rule_counts: dict[str, int] = {}
         self.rule_text: dict[str, str] = {}
         self.notes: list[str] = []
+        self.floor_failures: list[str] = []
         self.analysed: dict[str, Any] = {}
         self.assumptions: list[str] = []
         self.explanation = ""
@@ -102,9 +103,9 @@ class Report:
         if any(f.rule == rule for f in self.findings):
             return  # a concrete violation of this rule was found: report that, not the thinner instance count
         if n < minimum:
-            from .prog import AnalysisError
-            raise AnalysisError(f"{rule}: only {n} instance(s) examined, at least {minimum} were "
-                                f"confirmed on the pinned tree — extractor no longer recognises the code")
+            # deferred: the other rules still run; finish() exits 2 unless a concrete violation was found
+            self.floor_failures.append(f"{rule}: only {n} instance(s) examined, at least {minimum} were "
+                                       f"confirmed on the pinned tree — extractor no longer recognises the code")
 
     # -------------------------------------------------------------- finishing
     def finish(self) -> int:
@@ -147,8 +148,12 @@ class Report:
             print(f"VIOLATION property={self.prop} replay={path}")
         if self.write_evidence:
             self._write_evidence(new, known_hit, stale, wall)
+        for msg in self.floor_failures:
+            print(f"ANALYSIS-ERROR property={self.prop}: {msg}")
         sys.stdout.flush()
-        return 1 if new else 0
+        if new:
+            return 1
+        return 2 if self.floor_failures else 0
 
     def _write_evidence(self, new, known_hit, stale, wall) -> None:
         obligations = len(self.obligations)
